@@ -440,11 +440,13 @@ class Impl:
     def c_sim_new(self, a):
         mode, hz, dspec, ispec = a
         self.five = mode == "five"
-        self.sim = RiscvSimulation(
-            mode="five_stage_pipeline" if self.five else "single_stage_pipeline",
-            detect_data_hazards=hz == "1",
-            data_cache=cache_options(dspec, "d"),
-            instruction_cache=cache_options(ispec, "i"),
+        # through the front end's own entry point (architecture_simulator.gui.webgui), positional as the web GUI calls it
+        from architecture_simulator.gui import webgui
+        self.sim = webgui.get_riscv_simulation(
+            "five_stage_pipeline" if self.five else "single_stage_pipeline",
+            hz == "1",
+            cache_options(dspec, "d"),
+            cache_options(ispec, "i"),
         )
         return "ok"
 
@@ -478,6 +480,8 @@ class Impl:
             return err_str(e)
 
     def _fault_str(self, e: InstructionExecutionException) -> str:
+        if front_end_class(e) != "InstructionExecutionException":
+            return f"X front-end-classifies-run-time-error-as-{front_end_class(e)}"
         msg = e.error_message
         if msg.startswith("MemoryAddressError"):
             m = re.search(r"at address 0x([0-9A-F]+):", msg)
@@ -567,7 +571,8 @@ class Impl:
 
     # -- TOY ------------------------------------------------------------------------------------
     def c_toy_new(self, a):
-        self.toy = ToySimulation()
+        from architecture_simulator.gui import webgui
+        self.toy = webgui.get_toy_simulation()
         return "ok"
 
     def c_toy_load(self, a):
@@ -815,11 +820,32 @@ def err_str_fault(e: BaseException) -> str:
     return err_str(e)
 
 
+def front_end_class(e: BaseException) -> str:
+    """What the web front end makes of an exception: `webgui.get_last_error()` reads `sys.last_value`."""
+    import sys
+    from architecture_simulator.gui import webgui
+    old = getattr(sys, "last_value", None)
+    sys.last_value = e
+    try:
+        r = webgui.get_last_error()
+    finally:
+        if old is None:
+            try:
+                del sys.last_value
+            except AttributeError:
+                pass
+        else:
+            sys.last_value = old
+    return r[0] if len(r) == 3 and r[2] == getattr(e, "line_number", getattr(e, "address", None)) else "Unknown"
+
+
 def load_outcome(load, ok_str) -> str:
     """Canonical outcome of a `load_program` call: listing, or the error class and line."""
     try:
         load()
     except ParserException as e:
+        if front_end_class(e) != "ParserException":
+            return f"X front-end-classifies-{type(e).__name__}-as-{front_end_class(e)}"
         if not isinstance(e.line_number, int) or isinstance(e.line_number, bool) or not isinstance(e.line, str):
             # the error has the right class but ill-typed fields: report them as they are
             return f"PE {type(e).__name__} illtyped line_number={type(e.line_number).__name__}:{e.line_number!r} line={type(e.line).__name__}:{e.line!r}"[:300]
